@@ -107,7 +107,7 @@ class Builds:
         common.rm_rf(self.root)
 
 
-def run_driver(binp, lowered, scratch, timeout):
+def run_driver(binp, lowered, scratch, timeout, env=None):
     """Run the driver over `lowered` (list of driver scenarios).  Returns a list of observations
     aligned with the input; a scenario that killed the process gets {"crash": True, ...}; scenarios
     that could not be run at all get None."""
@@ -123,7 +123,7 @@ def run_driver(binp, lowered, scratch, timeout):
             batch.append(s)
         left = max(5.0, t_end - time.time())
         rc, out, err, _ = common.run([binp], timeout=left, mem_gb=8, cwd=scratch, input=json.dumps(batch),
-                                     env={"REPLAY_SCRATCH": scratch})
+                                     env=dict({"REPLAY_SCRATCH": scratch}, **(env or {})))
         n = 0
         for ln in out.splitlines():
             ln = ln.strip()
@@ -1167,6 +1167,11 @@ def fam_rayon_mmap(rng):
                 out.append(_with({"kind": "incremental", "input": _inp(n), "splits": sp, "via": via,
                                   "xof": {"seek": 0, "len": 70}}, MODES[mi % 3]))
                 mi += 1
+    # the same through a Rayon pool of one and of two threads (RAYON_NUM_THREADS is read when the global pool starts)
+    base = [dict(s) for s in out if s.get("kind") == "incremental" and s["input"]["len"] in (1, 16384, 16385, 70001, 200000)]
+    for nt in ("1", "2"):
+        for s in base:
+            out.append(dict(s, env={"RAYON_NUM_THREADS": nt}))
     return out
 
 
@@ -1310,12 +1315,19 @@ def search_family(binp, scratch, scs, deadline, stop_at_first=True):
     """-> (failures, n_checked, n_skipped, machinery_errors)"""
     fails, checked, skipped, mach = [], 0, 0, []
     CH = 300
-    for c0 in range(0, len(scs), CH):
+    # scenarios may name process environment variables (e.g. RAYON_NUM_THREADS=1): one driver process per setting
+    groups = {}
+    for sc in scs:
+        groups.setdefault(json.dumps(sc.get("env") or {}, sort_keys=True), []).append(sc)
+    chunks = []
+    for k, g in groups.items():
+        for c0 in range(0, len(g), CH):
+            chunks.append((json.loads(k), g[c0:c0 + CH]))
+    for env, chunk in chunks:
         if time.time() > deadline:
             break
-        chunk = scs[c0:c0 + CH]
         lows = [lower(s) for s in chunk]
-        res = run_driver(binp, lows, scratch, timeout=max(10.0, min(120.0, deadline - time.time())))
+        res = run_driver(binp, lows, scratch, timeout=max(10.0, min(120.0, deadline - time.time())), env=env)
         for sc, low, r in zip(chunk, lows, res):
             if time.time() > deadline:
                 break
@@ -1348,7 +1360,7 @@ def shrink(sc, m, r, binp, scratch):
         sc2["ops"] = sc["ops"][:i + 1]
         sc2.pop("fresh_from", None)
         low = lower(sc2)
-        res = run_driver(binp, [low], scratch, timeout=30)
+        res = run_driver(binp, [low], scratch, timeout=30, env=sc2.get("env"))
         m2 = check(sc2, low, res[0])
         if isinstance(m2, dict):
             return sc2, m2, res[0]
@@ -1448,7 +1460,7 @@ def rerun(failing_input):
         if not binp:
             return {"reproduced": False, "error": "driver build failed: " + (err or "")[-1500:]}
         low = lower(sc)
-        res = run_driver(binp, [low], builds.root, timeout=60)
+        res = run_driver(binp, [low], builds.root, timeout=60, env=sc.get("env"))
         try:
             m = check(sc, low, res[0])
         except Machinery as e:
